@@ -178,6 +178,15 @@ def _run_once(case):
             return {'fail': {'clause': 'later-call-affected:%s' % type(e).__name__, 'detail': 'after %s' % (obs,)}, 'tags': tags}
         if r2 != 5:
             return {'fail': {'clause': 'later-call-affected', 'detail': 'returned %r' % (r2,)}, 'tags': tags}
+    if kind == 'nested-short':
+        # the nested-limits LTS (Timeout.nstep, fixed = true): over all schedules of 8 events of a function of 5 ticks the
+        # caller's answer is in the listed set and no returned state has the function running (proved for every schedule:
+        # C19_nested_nothing_running); the real threads just showed the same
+        from common import run_dsgm
+        outs, leak = run_dsgm([sx(['nested_summary', True, 5, 8])])[0]
+        mine = 'timeout' if obs == 'timeout' else ['value', 0]
+        if leak or mine not in outs:
+            return {'fail': {'clause': 'nested-outcome-not-in-model', 'detail': 'observed %s; model outcomes %s leak %s' % (obs, outs, leak)}, 'tags': tags}
     res = ['raise', exc_i] if kind == 'raise' else ['value', ret_i]
     tol = 60 + case['limit_ms'] // 2
     # since 960afd7 the interrupt is a KeyboardInterrupt, which a blanket `except Exception` does not swallow
